@@ -64,9 +64,9 @@ theorem lookupVariantName_enum {env : Env} {en : String} {idx : Nat} {d : EnumDe
 
 /-- what a typed enum value and its Go image look like -/
 theorem enumV_inv {env : Env} {η : Hp} {en : String} {i : Nat} {vs : List Val} {gv : GVal}
-    (hty : HasTy env η (.enumV en i vs) (.enum en)) (hgv : toGV env η (.enumV en i vs) = some gv) :
+    (hty : HasTy env η (.enumV en i vs) (.enum en)) (hgv : VRel env η (.enumV en i vs) (.enum en) gv) :
     ∃ d vname tys gs, en ∈ goodEnums env ∧ env.getEnum en = some d ∧ d.variants[i]? = some (vname, tys) ∧
-      HasTys env η vs tys ∧ toGVs env η vs = some gs ∧
+      HasTys env η vs tys ∧ VRels env η vs tys gs ∧
       gv = .struct (variantGoName env en vname) ((fieldNames 0 gs.length).zip gs) := by
   simp only [HasTy] at hty
   obtain ⟨_, hen, hfields⟩ := hty
@@ -79,12 +79,9 @@ theorem enumV_inv {env : Env} {η : Hp} {en : String} {i : Nat} {vs : List Val} 
     | some vdef =>
       obtain ⟨vname, tys⟩ := vdef
       rw [hvi] at hfields; simp only at hfields
-      simp only [toGV, hd] at hgv
-      cases hgs : toGVs env η vs with
-      | none => rw [hgs] at hgv; simp at hgv
-      | some gs =>
-        rw [hgs] at hgv; simp only [hvi, Option.some.injEq] at hgv
-        exact ⟨d, vname, tys, gs, hen, rfl, hvi, hfields, rfl, hgv.symm⟩
+      simp only [VRel, hd, hvi] at hgv
+      obtain ⟨gs, hgs, rfl⟩ := hgv
+      exact ⟨d, vname, tys, gs, hen, rfl, hvi, hfields, hgs, rfl⟩
 
 /-! ### enum scrutinee: type switch -/
 
@@ -181,16 +178,16 @@ theorem stepME {env : Env} {file : AFile} {G : List String} {P : Prog} {F : GFil
 
 /-- comparable scalars: `==` on the Go images is `valEq` -/
 theorem valEq_toGV {env : Env} {η : Hp} {a b : Val} {ga gb : GVal} {t : Ty} (ha : HasTy env η a t) (hb : HasTy env η b t)
-    (hs : scalarTy t = true) (h1 : toGV env η a = some ga) (h2 : toGV env η b = some gb) : gvalEq ga gb = Sem.valEq a b := by
+    (hs : scalarTy t = true) (h1 : VRel env η a t ga) (h2 : VRel env η b t gb) : gvalEq ga gb = Sem.valEq a b := by
   cases t <;> simp [scalarTy] at hs
   · have := hasTy_unit ha; subst this; have := hasTy_unit hb; subst this
-    simp [toGV] at h1 h2; subst h1; subst h2; rfl
+    simp [VRel] at h1 h2; subst h1; subst h2; rfl
   · obtain ⟨x, rfl⟩ := hasTy_bool ha; obtain ⟨y, rfl⟩ := hasTy_bool hb
-    simp [toGV] at h1 h2; subst h1; subst h2; rfl
+    simp [VRel] at h1 h2; subst h1; subst h2; rfl
   · obtain ⟨x, rfl⟩ := hasTy_int ha; obtain ⟨y, rfl⟩ := hasTy_int hb
-    simp [toGV] at h1 h2; subst h1; subst h2; rfl
+    simp [VRel] at h1 h2; subst h1; subst h2; rfl
   · obtain ⟨x, rfl⟩ := hasTy_str ha; obtain ⟨y, rfl⟩ := hasTy_str hb
-    simp [toGV] at h1 h2; subst h1; subst h2; rfl
+    simp [VRel] at h1 h2; subst h1; subst h2; rfl
 
 theorem switchTy_scalar {t : Ty} (h : switchTy t = true) : scalarTy t = true := by
   cases t <;> simp [switchTy] at h <;> rfl
